@@ -215,6 +215,11 @@ def specConvRefs : List Ref :=
       ⟨.dbuffcollections, .buff "locationRequiredSkillModifiers" "skillID", .evetypes⟩,
       ⟨.skillreqs, .fk "skillTypeID", .evetypes⟩]
 
+/-- Ids a built type carries as an attribute *value* and eos dereferences at run time (autocharges, warfare buffs). -/
+def specValueRefs : List Ref :=
+  [⟨.dgmtypeattribs, .attrval [127, 2324], .evetypes⟩,
+   ⟨.dgmtypeattribs, .attrval [2468, 2470, 2472, 2536], .dbuffcollections⟩]
+
 def specAux : List Tbl := [.dgmtypeattribs, .dgmtypeeffects, .skillreqs, .typefighterabils]
 
 /-- charge, drone, fighter, implant, module, ship, skill, subsystem -/
